@@ -32,6 +32,11 @@ type stepC12 struct {
 type caseC12 struct {
 	Type  uint8     `json:"type"`
 	Steps []stepC12 `json:"steps"`
+	// StartGob: instead of a fresh packet the sequence starts from the packet
+	// decoded from the reference encoding of this model (a client modifies a
+	// packet it received and sends it on).
+	StartGob   string    `json:"start_model_gob,omitempty"`
+	StartStyle styleJSON `json:"start_style,omitempty"`
 }
 
 // mutateField draws a new value for the field a setter writes (scalar:
@@ -207,8 +212,23 @@ func checkC12(c caseC12) (sig, msg string) {
 	var last model.Packet = model.New(c.Type)
 	last.Normalize()
 	var lastWill *mq.Publish
-	// a fresh packet must already agree with the empty model
-	if d := model.Diff(api.Observe(p), last); d != "" {
+	if c.StartGob != "" {
+		sm, err := unpackModel(c.StartGob)
+		if err != nil {
+			return "harness", "harness: " + err.Error()
+		}
+		f, _ := ref.Encode(&sm, c.StartStyle.style())
+		q, err, pan := read(f)
+		if pan != nil || err != nil || q == nil || api.TypeOf(q) != int(c.Type) {
+			return "", "" // acceptance of valid frames is C03's business
+		}
+		sm.Normalize()
+		if model.Diff(api.Observe(q), sm) != "" {
+			return "", "" // so is decoding to the right values
+		}
+		p, last = q, sm
+	} else if d := model.Diff(api.Observe(p), last); d != "" {
+		// a fresh packet must already agree with the empty model
 		return "fresh:" + fieldOf(d), fmt.Sprintf("fresh %s differs from the empty model (got vs model): %s", typeName(c.Type), d)
 	}
 	for i, st := range c.Steps {
@@ -319,6 +339,16 @@ func TestC12(t *testing.T) {
 			m := model.New(typ)
 			m.Normalize()
 			c := caseC12{Type: typ}
+			if rapid.IntRange(0, 3).Draw(t, "from-decoded") == 0 {
+				o := gen.Opts{WellFormed: true, SpecValid: true, NoHuge: true}
+				m = gen.Packet(t, typ, o)
+				if typ == model.DISCONNECT {
+					gen.DisconnectProps(t, &m, o)
+				}
+				m.Normalize()
+				c.StartGob, c.StartStyle = packModel(m), drawStyle(t)
+				n = rapid.IntRange(1, 6).Draw(t, "steps-after-decode")
+			}
 			calls := map[string]int{}
 			nt := false
 			prev := map[string]string{}
